@@ -234,6 +234,7 @@ func schemaFromAny(v any) (avro.Schema, error) {
 // runEncoderProps drives C01 (round trip through Encoder and ReadFile) and C02
 // (the output is valid Avro for an independent reader).
 func runEncoderProps(r *Run, prop string) {
+	c01Big(r)
 	nfiles := r.N(90, 2500)
 	for i := 0; i < nfiles; i++ {
 		e := pool[i%len(pool)]
